@@ -29,6 +29,21 @@ def flat_moves(m):
     return list(m.moves) if hasattr(m, "moves") else [m]
 
 
+class RecOp:
+    """records every result the operation hands to the move (the move's `operation` slot is public; the operation itself is untouched)"""
+
+    def __init__(self, op, log):
+        self._op, self._log = op, log
+
+    def calculate(self, context):
+        r = self._op.calculate(context)
+        self._log.append(np.array(r, dtype=float).copy())
+        return r
+
+    def __getattr__(self, name):
+        return getattr(self._op, name)
+
+
 def handler(c):
     n = c["natoms"]
     rng = np.random.default_rng(c["seed"])
@@ -43,10 +58,17 @@ def handler(c):
         leaves.append(mv)
     vetoes = list(c.get("vetoes", []))
     nchecks = [0]
+    opres, attempts = [], []
+    for mv in leaves:
+        mv.operation = RecOp(mv.operation, opres)
 
     def check(*a, **k):
         nchecks[0] += 1
-        return not (vetoes.pop(0) if vetoes else False)
+        ok = not (vetoes.pop(0) if vetoes else False)
+        # what the user's geometric check is shown: the trial positions, the atoms being moved, the operation result that produced them
+        attempts.append({"moving": [int(i) for i in np.atleast_1d(ctx._moving_indices)], "trial": atoms.positions.copy(),
+                         "result": opres[-1].copy() if opres else None, "ok": ok})
+        return ok
 
     for mv in leaves:
         mv.check_move = check
@@ -76,11 +98,25 @@ def handler(c):
         before = atoms.positions.copy()
         labels_before = [np.asarray(m.labels).tolist() for m in flat_moves(move)]
         nchecks[0] = 0
+        del attempts[:]
         ret = move(ctx)
         after = atoms.positions.copy()
         changed = [int(i) for i in np.where(np.any(before != after, axis=1))[0]]
         delta = (after - before)
-        rec = {"ret": bool(ret), "changed": changed, "labels": labels_before, "natoms": len(atoms),
+        # every attempt starts from the configuration left by the last ACCEPTED attempt of this call (a vetoed one is undone first)
+        base, bad_attempts = before.copy(), []
+        for j, a in enumerate(attempts):
+            mvg = a["moving"]
+            others = np.ones(len(base), dtype=bool)
+            others[mvg] = False
+            if a["result"] is not None and not c.get("fixed"):
+                want = base[mvg] + np.broadcast_to(a["result"], (len(mvg), 3)) if np.size(a["result"]) in (3, 3 * len(mvg)) else None
+                if want is None or np.any(np.abs(a["trial"][mvg] - want) > 1e-12) or np.any(a["trial"][others] != base[others]):
+                    bad_attempts.append({"attempt": j, "moving": mvg, "off_by": None if want is None else float(np.max(np.abs(a["trial"][mvg] - want))),
+                                         "others_moved": bool(np.any(a["trial"][others] != base[others]))})
+            if a["ok"]:
+                base = a["trial"].copy()
+        rec = {"ret": bool(ret), "changed": changed, "bad_attempts": bad_attempts, "attempts": len(attempts), "labels": labels_before, "natoms": len(atoms),
                "delta": [[float(x).hex() for x in delta[i]] for i in changed], "checks": nchecks[0],
                "before": [b.tobytes().hex() for b in before], "after": [a.tobytes().hex() for a in after]}
         if hasattr(move, "moves"):
